@@ -712,8 +712,115 @@ def run(ctx):
     ctx.notes.append('float tolerances measured on 1.25e5 float queries: with the cell-ambiguity band of `ambiguous` and zero '
                      'distance slack every remaining flag had a relative squared-distance gap <= 3e-16; with FLOAT_REL = 1e-9 '
                      'no flag at all')
+
+    # =================================================================================================
+    # ---- the SOURCE-REGENERATED class (translator: classes, nested in-place updates, comprehensions): gen_stream below
+    gen_stream(ctx, sg, lines)
     # ======== "sitecov" input stream - self-contained, implemented at the end of this file; keep this call last ========
     _sitecov_tail(ctx)
+
+
+# Generated-code stream: Gen.grid_Index_init / _find_adjacents / _nearest / _remove_path (lean/Plotink/Gen/grid_Index.lean,
+# regenerated from spatial_grid.py on every run, with Gen.square_dist from plot_utils.py - the definitions the C13_gen_*
+# theorems are about) against the real class on the exact histories of this run: every `nearest` answer and the WHOLE
+# final instance (grid, adjacents, lookup, path_count, vertices, reverse, bin sizes, xmin, ymin, bins_per_side) must be
+# identical - Fractions under Rounding.exact, and the same histories with the coordinates converted to doubles under
+# Rounding.ieee, every float bit for bit.
+GEN_FUNCTIONS = ['grid_Index', 'square_dist']
+TRUSTED = TRUSTED + ['Gen.grid_Index_* are regenerated from spatial_grid.py on every run (C13_gen_* theorems); not verified, validated by '
+                     'the generated-code stream of this run: the translator (classes as tagged field tuples, nested in-place '
+                     'updates as rebinding, comprehensions, math.inf as sentinels of the extended comparisons) and the Py.Val '
+                     'library; Rounding.ieee as binary64']
+
+
+def _g13_val(v):
+    from .common import pyval, enc_str
+    if isinstance(v, F):
+        return 'f' + frac_str(v)
+    if isinstance(v, float) and v in (math.inf, -math.inf):
+        return 's' + enc_str('inf' if v > 0 else '-inf')
+    if isinstance(v, (list, tuple)):
+        return '(' + ' '.join(_g13_val(x) for x in v) + ')'
+    return pyval(v)
+
+
+def _g13_arg(v):
+    if isinstance(v, (list, tuple)):
+        return '[' + ','.join(_g13_arg(x) for x in v) + ']'
+    return _g13_val(v)
+
+
+def _g13_inst(idx):
+    from .common import enc_str
+    return '(' + ' '.join(['s' + enc_str('Index')] + [_g13_val(getattr(idx, a)) for a in
+                          ('grid', 'adjacents', 'lookup', 'path_count', 'vertices', 'reverse', 'bin_size_x', 'bin_size_y',
+                           'xmin', 'ymin', 'bins_per_side')]) + ')'
+
+
+def gen_stream(ctx, sg, lines):
+    if not ctx.driver:
+        ctx.notes.append('generated-code stream skipped: no driver')
+        return
+    import time
+    t0 = time.time()
+    rng = ctx.rng
+    hists = []
+    for ln in lines:
+        t = ln.split(' ')
+        bins, rev, n = int(t[1]), t[2] == '1', int(t[3])
+        c = [F(x) for x in t[4:4 + 4 * n]]
+        verts = [[[c[4 * k], c[4 * k + 1]], [c[4 * k + 2], c[4 * k + 3]]] for k in range(n)]
+        ops, p = [], 4 + 4 * n + 1
+        while p < len(t) and t[p] != 'd':
+            if t[p] == 'r':
+                ops.append((1, int(t[p + 1]))); p += 2
+            else:
+                ops.append((0, [F(t[p + 1]), F(t[p + 2])])); p += 3
+        hists.append((verts, bins, rev, ops))
+    cap = ctx.n(2500)
+    if len(hists) > cap:
+        hists = hists[:100] + rng.sample(hists[100:], max(0, min(len(hists) - 100, cap - 100))) if len(hists) > 100 else hists[:max(cap, 0)]
+    jobs = []
+    for k, (verts, bins, rev, ops) in enumerate(hists):
+        jobs.append(('exact', verts, bins, rev, ops))
+        if k % 3 == 0:
+            cv = lambda x: float(x)      # noqa
+            fv = [[[cv(x) for x in pt] for pt in v] for v in verts]
+            if not zero_extent(fv, rev):
+                jobs.append(('ieee', fv, bins, rev, [(o, (a if o else [cv(x) for x in a])) for o, a in ops]))
+    glines = []
+    for kind, verts, bins, rev, ops in jobs:
+        glines.append(f"gen grid {'x15' if kind == 'exact' else '15'} {_g13_arg(verts)} {bins} {'True' if rev else 'False'} "
+                      + _g13_arg([[o, a] for o, a in ops]))
+    outs = ctx.driver.batch(glines)
+    n = {'exact': 0, 'ieee': 0}
+    bad = {'exact': 0, 'ieee': 0}
+    nq = 0
+    for (kind, verts, bins, rev, ops), g in zip(jobs, outs):
+        inp = {'gen': kind, 'vertices': fmt_verts(verts) if kind == 'exact' else repr(verts), 'bins': bins, 'reverse': rev,
+               'history': [['remove', a] if o else ['nearest', [str(x) for x in a]] for o, a in ops]}
+        res = []
+        try:
+            idx = sg.Index([[list(v[0]), list(v[1])] for v in verts], bins, rev)
+            for o, a in ops:
+                if o:
+                    idx.remove_path(a); res.append(None)
+                else:
+                    res.append(idx.nearest(list(a))); nq += 1
+            want = '(' + _g13_val(res) + ' ' + _g13_inst(idx) + ')'
+        except Exception as ex:
+            want = 'RAISE ' + type(ex).__name__
+        n[kind] += 1
+        ctx.count(('gen', kind, repr(inp)), 'gen:' + kind, False)
+        if g != want and not (want.startswith('RAISE') and 'ERR' in g):
+            bad[kind] += 1
+            k = next((i for i, (a, b) in enumerate(zip(g, want)) if a != b), 0)
+            ctx.disagree(f'Gen.grid_Index (Rounding.{kind}) vs spatial_grid.Index: answers / final instance differ', inp,
+                         want[max(0, k - 60):k + 120], g[max(0, k - 60):k + 120])
+    ctx.notes.append(f"generated-code stream: Gen.grid_Index vs the real class: {n['exact']} Fraction histories under Rounding.exact "
+                     f"({bad['exact']} differ), {n['ieee']} double histories under Rounding.ieee ({bad['ieee']} differ); every nearest "
+                     f"answer ({nq}) and the whole final instance compared, floats bit for bit; {time.time() - t0:.1f}s")
+
 
 
 # ================================================================================================
